@@ -1262,7 +1262,8 @@ def violation(run: common.Run, p: Program, m: G.MsgDef, v, lang: str, what: str,
                          value={"by 'name=number'": plain_value(G.TRef(m), v)}, **extra),
            "expected_by_spec": clip(dump(expected)) if expected is not None else None,
            "observed_impl": observed}
-    run.violation(rep, suffix=f"{lang}: {what}"[:200])
+    rep["summary"] = f"{lang}: {what}"[:300]
+    run.violation(rep)
 
 
 def check_python(run: common.Run, p: Program, values, kinds, rng: random.Random, widths_seen) -> Dict[Tuple[int, int], Any]:
